@@ -637,6 +637,21 @@ class HavocLoop(object):
                 for f in facts:
                     P.assume(f)
                 _set_path(frame, path, seq)
+            elif isinstance(cur, (SStr, str)) and '.' not in path:
+                seq, facts = V.base_seq('hv_' + path, 'bytes')
+                for f in facts:
+                    P.assume(f)
+                j = z3.Int('j!q')
+                P.assume(z3.ForAll([j], z3.Implies(z3.And(j >= 0, j < seq.n), seq.at(j) < 128)))
+                frame.env[path] = SStr(seq, 'ascii')
+            elif isinstance(cur, list) and '.' not in path:
+                # a list the loop appends to: after an unknown number of iterations it holds an unknown number of
+                # (opaque) items
+                seq, facts = V.base_seq('hv_' + path, 'list', byte_valued=False)
+                for f in facts:
+                    P.assume(f)
+                seq.elem = 'opaque'
+                frame.env[path] = seq
             else:
                 raise E.Unsupported('havoc of %s (%s)' % (path, type(cur).__name__))
         for name, f in self._inv_list(frame):
@@ -658,6 +673,29 @@ class HavocLoop(object):
 
     def on_break(self, frame, ctx, k):
         pass
+
+
+class ProgressLoop(HavocLoop):
+    """loop contract for termination / work bounds: the listed variables are havocked under the invariant, and one
+    arbitrary iteration must strictly increase `measure(frame)` (an integer term, e.g. the number of bytes consumed) by
+    at least `step` while keeping it <= `limit(frame)`; the trip count is then at most (limit - initial measure) / step"""
+
+    def __init__(self, variables, measure, limit, inv=None, step=1):
+        HavocLoop.__init__(self, variables, inv)
+        self.measure, self.limit, self.step = measure, limit, step
+
+    def _inv_list(self, frame):
+        out = HavocLoop._inv_list(self, frame)
+        out.append(('measure within its limit', self.measure(frame) <= self.limit(frame)))
+        return out
+
+    def arbitrary(self, frame, ctx, k):
+        HavocLoop.arbitrary(self, frame, ctx, k)
+        ctx.m0 = self.measure(frame)
+
+    def after(self, frame, ctx, k):
+        return HavocLoop.after(self, frame, ctx, k) + [
+            ('progress: the iteration consumes at least %d byte(s)' % self.step, self.measure(frame) >= ctx.m0 + self.step)]
 
 
 class SFilter(object):
